@@ -1,0 +1,35 @@
+//! Verification-only wrapper (cargo feature `verif-hooks`): the real `LspServer` behind a
+//! public name. Nothing here changes behaviour.
+use lsp_types::InitializeParams;
+use std::error::Error;
+use tokio::sync::oneshot;
+
+use super::connection::AsyncConnection;
+use super::lsp_server::LspServer;
+use crate::context::{ServerContext, ServerContextSnapshot};
+
+/// The real server (message loop, initialization gate, pending queue).
+pub struct VerifServer(LspServer);
+
+impl VerifServer {
+    pub fn new(
+        connection: AsyncConnection,
+        params: &InitializeParams,
+        init_rx: oneshot::Receiver<()>,
+    ) -> Self {
+        VerifServer(LspServer::new(connection, params, init_rx))
+    }
+
+    pub fn snapshot(&self) -> ServerContextSnapshot {
+        self.0.server_context.snapshot()
+    }
+
+    pub fn context(&mut self) -> &mut ServerContext {
+        &mut self.0.server_context
+    }
+
+    /// `LspServer::run`: wait for initialization, drain pending messages, serve until shutdown.
+    pub async fn run(self) -> Result<(), Box<dyn Error + Sync + Send>> {
+        self.0.run().await
+    }
+}
